@@ -262,3 +262,9 @@ def r7(fx):
 def r10(fx):
     from . import p08
     yield from p08.sequence_symbols_consistent(fx)
+
+
+@rule('C05', 'R11', 212, 'the capacities the booster compares with are the ISO data capacities of every version and level (C04.R1): a cell that is too large lets a level be chosen that does not hold the content')
+def r11(fx):
+    from . import p04
+    yield from p04.r1(fx)
